@@ -36,6 +36,9 @@ func RobustRandom(outFile string, seed int64, n, depth int) (int, error) {
 	defer jf.Close()
 	for run := 1; run <= n; run++ {
 		if err := robustHistory(w, jf, seed*100003+int64(run), run, depth); err != nil {
+			if _, halted := err.(*HaltError); halted {
+				continue // logged as a `halt` event, which the trace specification never explains; the other histories still run
+			}
 			return w.N, fmt.Errorf("run %d: %w", run, err)
 		}
 	}
@@ -469,8 +472,9 @@ func (d *robust) height() error {
 			return err
 		}
 		resB, err := b.C.Finalize(blkB)
-		if err != nil {
-			return fmt.Errorf("reference execution failed: %w", err)
+		if err != nil { // FinalizeBlock failed on a block WITHOUT any malformed input: block processing halts
+			d.w.Emit(Ev{"ev": "halt", "run": d.run, "h": h, "err": short(err.Error()), "first": "reference"})
+			return &HaltError{Height: h, Err: err}
 		}
 		_ = resB
 		appWithout = modDigest(b.C)
